@@ -167,14 +167,27 @@ def Saiz.Wf (x : Saiz) : Prop :=
   ∀ s ∈ x.sample_info_sizes, s < 256
 instance (x : Saiz) : Decidable x.Wf := by unfold Saiz.Wf; infer_instance
 
-/-- `encode_box_fields`: `if default == 0: self.sample_count = len(sizes)` -/
+/-- `sample_count` + the per-sample sizes.  `encode_box_fields`:
+`if default == 0: self.sample_count = len(sizes)`; sizes only when `default == 0` -/
+def encSaizTable (dflt count : Nat) (sizes : List Nat) : Bytes :=
+  if dflt = 0 then encU32 sizes.length ++ encMany encU8 sizes else encU32 count
+
+def decSaizTable (dflt : Nat) (bs : Bytes) : Option ((Nat × List Nat) × Bytes) :=
+  match decU32 bs with
+  | none => none
+  | some (count, bs) =>
+    if dflt = 0 then
+      match decMany decU8 count bs with
+      | none => none
+      | some (sizes, bs) => some ((count, sizes), bs)
+    else some ((count, []), bs)
+
 def encSaiz (x : Saiz) : Bytes :=
   encU8 x.version ++ (encU24 x.flags ++
     (encOpt (hasBit x.flags 0) encU32 x.aux_info_type ++
     (encOpt (hasBit x.flags 0) encU32 x.aux_info_type_parameter ++
     (encU8 x.default_sample_info_size ++
-    (encU32 (if x.default_sample_info_size = 0 then x.sample_info_sizes.length else x.sample_count) ++
-     (if x.default_sample_info_size = 0 then encMany encU8 x.sample_info_sizes else []))))))
+     encSaizTable x.default_sample_info_size x.sample_count x.sample_info_sizes))))
 
 def decSaiz' (bs : Bytes) : Option (Saiz × Bytes) := do
   let (version, bs) ← decU8 bs
@@ -182,11 +195,10 @@ def decSaiz' (bs : Bytes) : Option (Saiz × Bytes) := do
   let (ait, bs) ← decOpt (hasBit flags 0) decU32 bs
   let (aitp, bs) ← decOpt (hasBit flags 0) decU32 bs
   let (dflt, bs) ← decU8 bs
-  let (count, bs) ← decU32 bs
-  let (sizes, bs) ← decMany decU8 (if dflt = 0 then count else 0) bs
+  let (tbl, bs) ← decSaizTable dflt bs
   some ({ version := version, flags := flags, aux_info_type := ait,
           aux_info_type_parameter := aitp, default_sample_info_size := dflt,
-          sample_count := count, sample_info_sizes := sizes }, bs)
+          sample_count := tbl.1, sample_info_sizes := tbl.2 }, bs)
 
 def decSaiz : Bytes → Option Saiz := exact decSaiz'
 
